@@ -14,7 +14,7 @@ VARIABLE hist
 gvars == <<vars, hist>>
 
 State == [ready |-> ready, verified |-> verified, closed |-> closed \/ desync, hsComplete |-> hsComplete, deaf |-> deaf]
-Entry(m) == [msg |-> m, out |-> out, sinks |-> sinks, st |-> State]
+Entry(m) == [msg |-> m, out |-> out, sinks |-> sinks, alt |-> alt, st |-> State]
 
 HsPending == ~hs.done /\ ~closed /\ Len(q) > 0
 GInit == Init /\ hist = <<>>
